@@ -561,14 +561,11 @@ pub fn cases(tier: Tier) -> Vec<Case> {
             }
         }
         for (ci, (added, updated, deleted)) in change_sets.into_iter().enumerate() {
-            let hop_limits: Vec<u8> = tier.pick(vec![1, 3], vec![1, 2, 3, 5]);
+            let hop_limits: Vec<u8> = vec![1, 2, 3, 5];
             for max_hops in hop_limits {
                 for with_domain in [false, true] {
                     let k = bi + ci + max_hops as usize;
-                    let url_sel: Vec<&str> = match tier {
-                        Tier::Quick => vec![urls[k % urls.len()], urls[(k + 3) % urls.len()]],
-                        Tier::Thorough => urls.to_vec(),
-                    };
+                    let url_sel: Vec<&str> = urls.to_vec();
                     for (ui, url) in url_sel.iter().enumerate() {
                         let code = match (k + ui) % 3 {
                             0 => None,
